@@ -380,7 +380,87 @@ def rule_kind_filter(prog):
                 uses.add(last(n["res"].get("p") or ""))
         out.add("completion::new_stmt", "variables come from the local table, procedures from the global table",
                 {"search_variables", "search_procedures"} <= uses, c.loc(ns["sp"]), "search functions used: %s" % sorted(u for u in uses if u.startswith("search_")))
+    _stmt_zone(prog, out)
     return out
+
+
+_SEARCHES = ("find", "position", "rposition", "rfind", "skip_while", "take_while", "any", "all", "filter", "find_map", "filter_map")
+
+
+def _stmt_zone(prog, out):
+    """A procedure body is `declarations, then statements`: where the statement zone begins is decided by a search over the
+    `statements` of the ProcedureDeclaration with a predicate on the statement kind.  Error recovery leaves placeholder statements
+    (variants of ast::Statement whose only payload is the AstInfo: Empty, Error), which such a predicate may set aside; every variant
+    that carries a construct of its own (Assignment, Call, If, While, Block - read from the enum definition, not from the predicate)
+    is a statement of the grammar and must get the same answer.  Predicates of another shape are undecided, not violations."""
+    c = prog.lsp
+    STMT = "spl_frontend::ast::Statement"
+    adt = prog.front.adts.get(STMT)
+    if not adt:
+        return
+    real = set()
+    for v in adt["variants"]:
+        ts = [prog.front.tstr(f["t"]) for f in v.get("fields") or []]
+        if ts and not all(t.endswith("AstInfo") for t in ts):
+            real.add(v["name"])
+    if len(real) < 2:
+        return
+    for b in c.bodies:
+        if not b["p"].startswith("lsp4spl::features::completion") or "/tests" in c.file_of(b["sp"]) or b["k"] == "closure":
+            continue
+        for mc in hir.nodes(b["body"], "MethodCall"):
+            if mc["m"] not in _SEARCHES or not mc["args"]:
+                continue
+            # the receiver chain starts at the `statements` field of a ProcedureDeclaration
+            over = False
+            for f in hir.nodes(mc["recv"], "Field"):
+                if f["name"] == "statements" and any("ProcedureDeclaration" in c.tstr(x.get("t")) for x in hir.nodes(f["base"]) if x.get("t") is not None):
+                    over = True
+            if not over:
+                continue
+            for m in hir.nodes_deep(prog, mc["args"][0], 1, crate=c, values=True):
+                if m.get("k") != "Match":
+                    continue
+                verdicts = {}
+                decided = True
+                for v in sorted(real):
+                    val = None
+                    for arm in m["arms"]:
+                        hit = None
+                        for alt in hir.pat_alternatives(arm["pat"]):
+                            a_ = hir.pat_strip(alt)
+                            pv = hir.pat_variant(a_)
+                            if pv is not None:
+                                if pv.startswith(STMT + "::"):
+                                    if last(pv) == v:
+                                        hit = True
+                                else:
+                                    hit = "?"
+                            elif a_.get("k") == "Wild" or (a_.get("k") == "Binding" and not a_.get("sub")):
+                                hit = True
+                            else:
+                                hit = "?"
+                            if hit:
+                                break
+                        if hit == "?" or (hit and arm.get("guard") is not None):
+                            decided = False
+                            break
+                        if hit:
+                            val = hir.lit_value(arm["body"])
+                            if val not in (True, False):
+                                decided = False
+                            break
+                    if not decided:
+                        break
+                    verdicts[v] = val
+                if not any(hir.pat_variant(hir.pat_strip(alt)) and hir.pat_variant(hir.pat_strip(alt)).startswith(STMT + "::")
+                           for arm in m["arms"] for alt in hir.pat_alternatives(arm["pat"])):
+                    continue
+                ok = None if not decided else len(set(verdicts.values())) == 1
+                out.add(b["d"], "the search for the first statement of a procedure body treats every statement kind of the grammar alike",
+                        ok, c.loc(m["sp"]),
+                        "over `statements` of a ProcedureDeclaration, predicate per variant: %s (variants with a construct payload, from "
+                        "the enum definition: %s)" % (", ".join("%s=%s" % kv for kv in sorted(verdicts.items())), sorted(real)), ("zone",))
 
 
 def rule_builtin_set(prog):
